@@ -321,3 +321,13 @@ theorem countSet_set_in (bits : Array Bool) (b m p : Nat) (h1 : b ≤ p) (h2 : p
 
 end InvAux
 end RS
+
+#print axioms RS.InvAux.k_le_encWorkCount
+#print axioms RS.InvAux.dec_geometry
+#print axioms RS.InvAux.chooseRate_default_ok
+#print axioms RS.InvAux.chooseRate_default_error
+#print axioms RS.InvAux.encodeMem_size
+#print axioms RS.InvAux.decodeMem_size
+#print axioms RS.InvAux.countSet_replicate
+#print axioms RS.InvAux.countSet_set_in
+#print axioms RS.InvAux.countSet_set_out
